@@ -70,15 +70,15 @@ def dict_setitem(B, st, d, k, v, node):
     has = dict_has(B, st, d, k)
     hm = st.dhas(_ks(d))
     vm = st.dval(_ks(d), _vs(d))
-    st.heap[("DHAS", sort_name(_ks(d)))] = z3.Store(hm, d.ref, z3.Store(z3.Select(hm, d.ref), kt, z3.BoolVal(True)))
-    st.heap[("DVAL", sort_name(_ks(d)), sort_name(_vs(d)))] = z3.Store(vm, d.ref, z3.Store(z3.Select(vm, d.ref), kt, eng.unwrap(st, v, d.vt)))
+    st.heap[("DHAS", sort_name(_ks(d)))] = E.SStore(hm, d.ref, z3.Store(z3.Select(hm, d.ref), kt, z3.BoolVal(True)))
+    st.heap[("DVAL", sort_name(_ks(d)), sort_name(_vs(d)))] = E.SStore(vm, d.ref, z3.Store(z3.Select(vm, d.ref), kt, eng.unwrap(st, v, d.vt)))
     keys = dict_keys_list(B, st, d)
     n = eng.list_len(st, keys)
     es = _ks(d)
     em = st.eltmap(es)
     old = z3.Select(em, keys.ref)
-    st.heap[("ELT", sort_name(es))] = z3.Store(em, keys.ref, z3.If(has, old, z3.Store(old, n, kt)))
-    st.heap[("LEN",)] = z3.Store(st.lenmap(), keys.ref, z3.If(has, n, n + 1))
+    st.heap[("ELT", sort_name(es))] = E.SStore(em, keys.ref, z3.If(has, old, z3.Store(old, n, kt)))
+    st.heap[("LEN",)] = E.SStore(st.lenmap(), keys.ref, z3.If(has, n, n + 1))
     ln = getattr(node, "lineno", 0)
     for key in dict_map_keys(B, d):
         st.writes.append((key, d.ref, ln))
@@ -91,9 +91,9 @@ def new_dict(B, st, kt, vt) -> VDict:
     ref = st.new_ref("dict")
     d = VDict(ref, kt, vt)
     keys = eng.new_list(st, kt, z3.IntVal(0))
-    st.heap[("DKEYS",)] = z3.Store(st.dkeys(), ref, keys.ref)
+    st.heap[("DKEYS",)] = E.SStore(st.dkeys(), ref, keys.ref)
     hm = st.dhas(_ks(d))
-    st.heap[("DHAS", sort_name(_ks(d)))] = z3.Store(hm, ref, z3.K(_ks(d), z3.BoolVal(False)))
+    st.heap[("DHAS", sort_name(_ks(d)))] = E.SStore(hm, ref, z3.K(_ks(d), z3.BoolVal(False)))
     return d
 
 
@@ -132,7 +132,7 @@ def _dict_values_list(B, st, d) -> VList:
         va, ka = z3.Const("dva!", varr.sort()), z3.Const("dka!", karr.sort())
         eng.axioms.append(FA([va, ka, k], z3.Select(fn(va, ka), k) == z3.Select(va, z3.Select(ka, k)),
                              patterns=[z3.Select(fn(va, ka), k)]), keys={fn.name()})
-    st.heap[("ELT", sort_name(es))] = z3.Store(st.eltmap(es), res.ref, fn(varr, karr))
+    st.heap[("ELT", sort_name(es))] = E.SStore(st.eltmap(es), res.ref, fn(varr, karr))
     return res
 
 
@@ -165,12 +165,12 @@ def dict_method(B, st, d, name, args, kwargs, node):
 def havoc_dict(B, st, d, node):
     hm = st.dhas(_ks(d))
     vm = st.dval(_ks(d), _vs(d))
-    st.heap[("DHAS", sort_name(_ks(d)))] = z3.Store(hm, d.ref, st.fresh("hv_dh", z3.ArraySort(_ks(d), z3.BoolSort())))
-    st.heap[("DVAL", sort_name(_ks(d)), sort_name(_vs(d)))] = z3.Store(vm, d.ref, st.fresh("hv_dv", z3.ArraySort(_ks(d), _vs(d))))
+    st.heap[("DHAS", sort_name(_ks(d)))] = E.SStore(hm, d.ref, st.fresh("hv_dh", z3.ArraySort(_ks(d), z3.BoolSort())))
+    st.heap[("DVAL", sort_name(_ks(d)), sort_name(_vs(d)))] = E.SStore(vm, d.ref, st.fresh("hv_dv", z3.ArraySort(_ks(d), _vs(d))))
     keys = dict_keys_list(B, st, d)
     es = _ks(d)
-    st.heap[("LEN",)] = z3.Store(st.lenmap(), keys.ref, st.fresh("hv_len", z3.IntSort()))
-    st.heap[("ELT", sort_name(es))] = z3.Store(st.eltmap(es), keys.ref, st.fresh("hv_elt", z3.ArraySort(z3.IntSort(), es)))
+    st.heap[("LEN",)] = E.SStore(st.lenmap(), keys.ref, st.fresh("hv_len", z3.IntSort()))
+    st.heap[("ELT", sort_name(es))] = E.SStore(st.eltmap(es), keys.ref, st.fresh("hv_elt", z3.ArraySort(z3.IntSort(), es)))
     ln = getattr(node, "lineno", 0)
     for key in dict_map_keys(B, d):
         st.writes.append((key, d.ref, ln))
